@@ -1,5 +1,179 @@
-import TcheranVerif.Model.Eval
+import TcheranVerif.Model.Draw
+import TcheranVerif.Proofs.Bits
+/-!
+# C11 — repetition, fifty-move and dead-material draws
+
+* `repeated_exact` — the engine compares the current key with the keys of the last
+  `halfmove_clock` history entries; if those entries record, in order, the keys of the earlier
+  positions of the game and the key is injective on the positions involved (the 64-bit assumption,
+  explicit), this is exactly "an identical position (placement, side, rights, e.p. target) occurred
+  since the last capture or pawn move". Works for FEN starts with a non-zero clock and no history
+  (`take` of a short list).
+* `repeated_window` — entries older than the clock are never consulted.
+* `fifty_exact` — the fifty-move verdict is `clock ≥ 100 ∧ a legal move exists` (relative to the
+  engine's generator; its equality with the rules is C01).
+* `insufficient_*` — the material rule as a function of piece counts: true for bare kings and for
+  king + one minor v king; false whenever a pawn, rook or queen is present or more than two minor
+  pieces remain (the counts are linked to the board by `Props.C02`'s view consistency; that link is
+  stated as the hypothesis `n = 2 + minors + heavy`).
+Search-internal null moves push a history entry without advancing the clock, so the window is then
+one entry short per null move: soundness only, not claimed (C11 quantifies over game histories).
+-/
 namespace Tcheran.Props.C11
-theorem placeholder : True := trivial
+open Tcheran
+
+/-- abstract form of both definitions: look for a match among the first `n` entries -/
+theorem any_take_map {α β} (l : List α) (f : α → β) (p : β → Bool) (n : Nat) :
+    ((l.map f).take n).any p = (l.take n).any (fun a => p (f a)) := by
+  rw [← List.map_take, List.any_map]
+  rfl
+
+theorem any_congr_mem {α} (l : List α) (p q : α → Bool) (h : ∀ x ∈ l, p x = q x) : l.any p = l.any q := by
+  induction l with
+  | nil => rfl
+  | cons x xs ih =>
+    simp only [List.any_cons]
+    rw [h x (by simp), ih (fun y hy => h y (by simp [hy]))]
+
+/-- **repeated_exact** -/
+theorem repeated_exact (g : Game) (cur : Rules.Pos) (earlier : List Rules.Pos) (keyOf : Rules.Pos → BB)
+    (hclock : g.halfmove = cur.halfmove)
+    (hkeys : g.history.map (·.zobrist) = earlier.map keyOf)
+    (hcur : g.zobrist = keyOf cur)
+    (hinj : ∀ p ∈ earlier, keyOf p = keyOf cur ↔ Rules.samePosition cur p = true) :
+    g.isRepeated = Rules.isRepeated cur earlier := by
+  unfold Game.isRepeated Rules.isRepeated
+  have e1 : (g.history.take g.halfmove).any (fun h => h.zobrist == g.zobrist)
+      = ((g.history.map (·.zobrist)).take g.halfmove).any (fun z => z == g.zobrist) := by
+    rw [any_take_map]
+  rw [e1, hkeys, any_take_map, hclock, hcur]
+  apply any_congr_mem
+  intro p hp
+  have hmem : p ∈ earlier := List.mem_of_mem_take hp
+  have := hinj p hmem
+  cases hs : Rules.samePosition cur p with
+  | true => simp [this.2 hs]
+  | false =>
+    have : keyOf p ≠ keyOf cur := fun e => by rw [this.1 e] at hs; cases hs
+    simp [this]
+
+/-- history entries older than the halfmove clock are never consulted -/
+theorem repeated_window (g : Game) (extra : List History) :
+    ({ g with history := g.history.take g.halfmove ++ extra } : Game).isRepeated
+      = ({ g with history := g.history.take g.halfmove } : Game).isRepeated ∨ g.history.length < g.halfmove := by
+  by_cases h : g.history.length < g.halfmove
+  · exact Or.inr h
+  · left
+    unfold Game.isRepeated
+    simp only
+    have hl : (g.history.take g.halfmove).length = g.halfmove := by
+      rw [List.length_take]; omega
+    rw [List.take_append_of_le_length (by omega), List.take_take]
+
+/-- **fifty_exact** (relative to the engine's own generator) -/
+theorem fifty_exact (g : Game) (ms : List Move) (h : generateLegal g = some ms) :
+    g.isFifty = some (decide (g.halfmove ≥ 100) && !ms.isEmpty) := by
+  unfold Game.isFifty
+  by_cases hc : g.halfmove ≥ 100
+  · simp [hc, h]
+  · simp [hc]
+
+theorem fifty_below (g : Game) (h : g.halfmove < 100) : g.isFifty = some false := by
+  unfold Game.isFifty
+  rw [if_neg (by omega)]
+
+/-- the material rule of `is_stalemate_by_insufficient_material` as a function of counts -/
+def insuffCounts (n nk nb lightB : Nat) (oneEach kingInCorner kingOnEdge : Bool) : Bool :=
+  if n == 2 then true
+  else if n == 3 then decide (nk + nb > 0)
+  else if n == 4 then
+    (nk == 2 && !kingOnEdge) || (nb == 2 && (lightB != 1 || (oneEach && !kingInCorner)))
+      || (nk == 1 && nb == 1 && oneEach && !kingInCorner)
+  else false
+
+/-- bare kings: insufficient -/
+theorem insufficient_bare_kings (lb : Nat) (a b c : Bool) : insuffCounts 2 0 0 lb a b c = true := rfl
+
+/-- king and one minor piece against king: insufficient -/
+theorem insufficient_one_minor (nk nb lb : Nat) (a b c : Bool) (h : nk + nb = 1) :
+    insuffCounts 3 nk nb lb a b c = true := by
+  unfold insuffCounts
+  simp
+  omega
+
+/-- a pawn, rook or queen on the board: never insufficient (`n = 2 kings + minors + heavy`) -/
+theorem sufficient_with_heavy (n nk nb heavy lb : Nat) (a b c : Bool) (hn : n = 2 + nk + nb + heavy)
+    (hh : heavy ≥ 1) : insuffCounts n nk nb lb a b c = false := by
+  unfold insuffCounts
+  by_cases h2 : n = 2
+  · omega
+  · by_cases h3 : n = 3
+    · have : nk + nb = 0 := by omega
+      simp [h3, this]
+    · by_cases h4 : n = 4
+      · have e1 : (nk == 2) = false := by simp; omega
+        have e2 : (nb == 2) = false := by simp; omega
+        simp [h4, e1, e2]
+        intro hk hb
+        omega
+      · simp [h2, h3, h4]
+
+/-- more than two minor pieces: never insufficient -/
+theorem sufficient_three_minors (n nk nb heavy lb : Nat) (a b c : Bool) (hn : n = 2 + nk + nb + heavy)
+    (hm : nk + nb ≥ 3) : insuffCounts n nk nb lb a b c = false := by
+  unfold insuffCounts
+  have h2 : ¬ n = 2 := by omega
+  have h3 : ¬ n = 3 := by omega
+  have h4 : ¬ n = 4 := by omega
+  simp [h2, h3, h4]
+
+theorem count_or_pos (a b : BB) : (a ||| b != 0#64) = decide (BB.count a + BB.count b > 0) := by
+  by_cases ha : a = 0#64
+  · by_cases hb : b = 0#64
+    · subst ha hb
+      have : BB.count 0#64 = 0 := (count_eq_zero_iff _).2 rfl
+      simp [this]
+    · have hcb : BB.count b ≠ 0 := fun h => hb ((count_eq_zero_iff b).1 h)
+      subst ha
+      have : 0 < BB.count 0#64 + BB.count b := by omega
+      simp [hb, this]
+  · have hc : BB.count a ≠ 0 := fun h => ha ((count_eq_zero_iff a).1 h)
+    have hor : a ||| b ≠ 0#64 := by
+      intro h
+      apply ha
+      apply ext_mem; intro t
+      have := congrArg (fun x => mem x t) h
+      simp only [mem_or, mem_zero, Bool.or_eq_false_iff] at this
+      rw [mem_zero]; exact this.1
+    have : 0 < BB.count a + BB.count b := by omega
+    simp [hor, this]
+
+/-- the model's verdict is this function of the board's counts -/
+theorem isInsufficient_eq (g : Game) :
+    g.isInsufficient = insuffCounts (BB.count g.board.occupancy) (BB.count g.board.knights)
+      (BB.count g.board.bishops) (BB.count (g.board.bishops &&& BB.lightSquares))
+      (BB.count (g.board.occFor g.player) == 2) ((g.board.kings &&& BB.corners) != 0#64)
+      ((g.board.kings &&& BB.edges) != 0#64) := by
+  unfold Game.isInsufficient insuffCounts
+  simp only
+  rw [count_or_pos]
+
+/-- non-vacuity of `repeated_exact`'s shape: a two-entry history with the matching key first -/
+example : ({ player := .white, board := Board.empty, rights := Rights.none, ep := none, halfmove := 2, plies := 2,
+             zobrist := 7#64, inc := ⟨0, 0⟩,
+             history := [⟨none, none, Rights.none, none, 0, 5#64, ⟨0, 0⟩⟩, ⟨none, none, Rights.none, none, 0, 7#64, ⟨0, 0⟩⟩] } : Game).isRepeated
+    = true := by decide
+
 end Tcheran.Props.C11
-#print axioms Tcheran.Props.C11.placeholder
+#print axioms Tcheran.Props.C11.any_take_map
+#print axioms Tcheran.Props.C11.any_congr_mem
+#print axioms Tcheran.Props.C11.repeated_exact
+#print axioms Tcheran.Props.C11.repeated_window
+#print axioms Tcheran.Props.C11.fifty_exact
+#print axioms Tcheran.Props.C11.fifty_below
+#print axioms Tcheran.Props.C11.insufficient_bare_kings
+#print axioms Tcheran.Props.C11.insufficient_one_minor
+#print axioms Tcheran.Props.C11.sufficient_with_heavy
+#print axioms Tcheran.Props.C11.sufficient_three_minors
+#print axioms Tcheran.Props.C11.count_or_pos
+#print axioms Tcheran.Props.C11.isInsufficient_eq
